@@ -111,13 +111,13 @@ int main(int argc, char** argv) {
           // S_IFDIR) instead of regular files
           std::string base = pos == std::string::npos ? rel : rel.substr(pos + 1);
           std::string abs = fs->root() + "/" + rel;
-          size_t h = std::hash<std::string>{}(rel) % 4;
+          size_t h = (std::hash<std::string>{}(key) + nG) % 3;   // per tree: all its files regular, sockets, or FIFOs
           if (h == 0 && abs.size() < 100) {
             int sfd = ::socket(AF_UNIX, SOCK_STREAM, 0);
             sockaddr_un a{}; a.sun_family = AF_UNIX; strncpy(a.sun_path, abs.c_str(), sizeof(a.sun_path) - 1);
             if (sfd < 0 || ::bind(sfd, (sockaddr*)&a, sizeof a) != 0) fs->write(dir, base, "x");
             if (sfd >= 0) ::close(sfd);
-          } else if (h == 1) { if (::mkfifo(abs.c_str(), 0644) != 0) fs->write(dir, base, "x"); }
+          } else if (h == 1 || (h == 0 && abs.size() >= 100)) { if (::mkfifo(abs.c_str(), 0644) != 0) fs->write(dir, base, "x"); }
           else fs->write(dir, base, "x");
         }
         // a sibling of the fs root whose name extends the root's name
